@@ -16,6 +16,8 @@ tied to the branch it encodes), plus emitter funnels:
       sanitize_comment / maybe_comment delegate to the base on every return path; no
       TRANSFORMS entry replaces the Literal / Identifier emitters.
   R6  comments = C07.c (block comments only, sanitised) — evaluated here as well.
+  R8  delegating dialects (Athena): the first-pass tokenizer's escape characters are escaped by each
+      delegate writer (Hive / Trino generators).
   R7  the reader shape the predicates mirror is still there (anchor conditions of
       _extract_string / _scan_identifier / Generator.__init__).
 Does not decide: byte/raw/national/heredoc kinds, UNICODE escapes, the full "for all v" trip.
@@ -312,6 +314,73 @@ def rule_funnel(ctx: Ctx) -> None:
     ctx.min_instances("generator_classes", len(fx["gen_handlers"]), 30)
 
 
+def rule_delegation(ctx: Ctx) -> None:
+    ctx.rule(
+        "C04.R8",
+        "delegating dialects: when a dialect's generator hands generation to other dialects' generators, every string/identifier escape "
+        "character of the dialect's own (first-pass) tokenizer is escaped by each delegate writer",
+    )
+    repo = ctx.repo
+    fx = facts(repo)
+    g = repo.cls(GEN, "Generator")
+    n = 0
+    for c in repo.subclasses(g):
+        gen = c.methods().get("generate")
+        init = c.methods().get("__init__")
+        if gen is None or init is None:
+            continue
+        delegates = sorted({
+            x.func.value.attr for x in walk_no_nested(gen)
+            if isinstance(x, ast.Call) and isinstance(x.func, ast.Attribute) and x.func.attr == "generate" and is_self_attr(x.func.value)
+        })
+        if not delegates:
+            continue
+        # which dialects use this generator class?
+        users = [dn for dn, d in fx["dialects"].items() if d["generator_class"] == c.key]
+        for attr in delegates:
+            ctor = next((st.value for st in walk_no_nested(init) if isinstance(st, (ast.Assign, ast.AnnAssign)) and is_self_attr(st.targets[0] if isinstance(st, ast.Assign) else st.target, attr) and isinstance(st.value, ast.Call)), None)
+            wname = None
+            if ctor is not None:
+                dv = next((kw.value for kw in ctor.keywords if kw.arg == "dialect"), None)
+                exprs = [dv] if dv is not None else []
+                if isinstance(dv, ast.Name):
+                    exprs = [st.value for st in walk_no_nested(init) if isinstance(st, ast.Assign) and len(st.targets) == 1 and norm(st.targets[0]) == dv.id]
+                for e in exprs:
+                    for x in ast.walk(e):
+                        if isinstance(x, ast.Call):
+                            nm = (call_name(x) or "").split(".")[-1]
+                            if nm[:1].isupper() and nm.lower() in fx["dialects"]:
+                                wname = nm.lower()
+            if wname is None:
+                ctx.fail(c.module, init, f"{c.key}.__init__", f"self.{attr}", f"cannot determine which dialect the delegate generator self.{attr} writes for")
+                continue
+            W = fx["dialects"][wname]
+            for dn in users:
+                D = fx["dialects"][dn]
+                t = D["tok"]
+                QU = set(t["_QUOTES"])
+                for cch in t["STRING_ESCAPES"]:
+                    if cch in QU:
+                        continue
+                    n += 1
+                    wa = W["attrs"]
+                    if wa["STRINGS_SUPPORT_ESCAPED_SEQUENCES"] and cch in (wa["ESCAPED_SEQUENCES"] or {}):
+                        ctx.ok(f"{dn} via {wname}|string escape {cch!r} escaped by the delegate writer", {"dialect": dn, "delegate": wname, "escape": cch})
+                    else:
+                        ctx.fail(None, None, D["class"], f"{dn}: tokenizer string escape {cch!r} vs delegate writer {wname}",
+                                 f"dialect {dn} tokenizes its input first with its own tokenizer, which treats {cch!r} as a string escape, but SQL generated for it "
+                                 f"by the {wname} generator leaves {cch!r} verbatim: a string literal ending in {cch!r} does not lex back (unterminated string)")
+                Iend = W["attrs"]["IDENTIFIER_END"]
+                for cch in t["IDENTIFIER_ESCAPES"]:
+                    if cch == Iend:
+                        continue
+                    n += 1
+                    ctx.fail(None, None, D["class"], f"{dn}: tokenizer identifier escape {cch!r} vs delegate writer {wname}",
+                             f"dialect {dn}'s tokenizer treats {cch!r} as an identifier escape; the delegate writer {wname} is not known to escape it")
+    ctx.count("delegate_escape_obligations", n)
+    ctx.min_instances("delegate_escape_obligations", n, 1)
+
+
 def rule_comments(ctx: Ctx) -> None:
     c07.rule_c(ctx)
     ctx.rules["C04.R6"] = ctx.rules.pop("C07.c")
@@ -325,7 +394,7 @@ def rule_comments(ctx: Ctx) -> None:
             s["rule"] = "C04.R6"
 
 
-RULES = [rule_anchor, rule_tables, rule_funnel, rule_comments]
+RULES = [rule_anchor, rule_tables, rule_funnel, rule_delegation, rule_comments]
 EXPLANATION = (
     "Writer/reader table agreement decided exhaustively for every dialect class: the generator's escaping tables "
     "(QUOTE_END, STRING_ESCAPES[0], ESCAPED_SEQUENCES, identifier doubling and identifier_sql's constant replacements) "
